@@ -421,15 +421,6 @@ func (c *Ctx) lexemes() *lexemeTable {
 					if !ok || !isTokenCtor(call) {
 						return true
 					}
-					// open classes: the literal argument is a scanner call
-					if lcall, ok := call.Args[1].(*ast.CallExpr); ok {
-						if tv, ok := c.tokConstOf(info, call.Args[0]); ok && len(lex) == 1 {
-							_ = lcall
-							lt.strDelims[lex[0]] = tv
-							lt.sites++
-							return false
-						}
-					}
 					record(lex, call)
 					return false
 				})
